@@ -1,4 +1,4 @@
-"""C10: decided on spec/AsyncRef.tla and spec/RxAsync.tla."""
+"""C10: decided on spec/AsyncRef.tla, spec/RxAsync.tla and spec/RxLazy.tla."""
 import time
 
 from harness import core, pipeline, steploop
@@ -15,6 +15,11 @@ def cfg_r(n, ms, hist):
             % (n, ms, "TRUE" if hist else "FALSE", "INVARIANT Emit" if hist else "INVARIANT TypeOK\nINVARIANT LatestWins\nINVARIANT SeenIncreasing"))
 
 
+def cfg_l(n, mu, ms, hist):
+    return ("CONSTANTS\n N = %d\n MaxUpd = %d\n MaxSteps = %d\n RecordHist = %s\nINIT Init\nNEXT Next\nCHECK_DEADLOCK FALSE\n%s\n"
+            % (n, mu, ms, "TRUE" if hist else "FALSE", "INVARIANT Emit" if hist else "INVARIANT TypeOK\nINVARIANT LatestWins\nINVARIANT NeverLost"))
+
+
 def run(prop, tier, seed):
     t0 = time.time()
     quick = tier == "quick"
@@ -26,7 +31,9 @@ def run(prop, tier, seed):
     with core.Scratch() as scratch:
         props = [{"module": "MC_AsyncRef.tla", "cfg": "C10_pa.cfg", "extra_defs": {"C10_pa.cfg": cfg_a("KAll", 3, 16 if quick else 22, False)},
                   "must_cover": ["Tick", "AssignPlain"]},
-                 {"module": "MC_RxAsync.tla", "cfg": "C10_pr.cfg", "extra_defs": {"C10_pr.cfg": cfg_r(4, 24, False)}}]
+                 {"module": "MC_RxAsync.tla", "cfg": "C10_pr.cfg", "extra_defs": {"C10_pr.cfg": cfg_r(4, 24, False)}},
+                 {"module": "MC_RxLazy.tla", "cfg": "C10_pl.cfg", "extra_defs": {"C10_pl.cfg": cfg_l(3, 2, 14 if quick else 18, False)},
+                  "must_cover": ["Read", "Tick", "Update"]}]
         pst = pipeline.tlc_prop_stage(props, scratch, 2400)
         gens = []
         for ms in ((6, 9) if quick else (6, 8, 10, 12)):
@@ -44,10 +51,19 @@ def run(prop, tier, seed):
             n = "C10_gr%d.cfg" % ms
             gens.append({"module": "MC_RxAsync.tla", "cfg": n, "workers": 4, "extra_defs": {n: cfg_r(3 if ms < 12 else 4, ms, True)}})
         rst2 = pipeline.replay_stage(gens, "rxasync", {}, scratch, 2400, name="replay_rx_async")
+        # the same pipeline unwatched, with a second reactive input: evaluated only when read
+        gens = []
+        for ms in ((6, 8) if quick else (6, 8, 10)):
+            n = "C10_gl%d.cfg" % ms
+            gens.append({"module": "MC_RxLazy.tla", "cfg": n, "workers": 4, "extra_defs": {n: cfg_l(3, 2, ms, True)}})
+        n = "C10_sl.cfg"
+        gens.append({"module": "MC_RxLazy.tla", "cfg": n, "workers": 8, "simulate": 500 if quick else 20000, "depth": 20, "seed": seed,
+                     "extra_defs": {n: cfg_l(4, 3, 16, True)}})
+        rst3 = pipeline.replay_stage(gens, "rxlazy", {}, scratch, 2400, name="replay_rx_lazy")
     # behaviours carrying the known-finding tags conform to the specification (which models the
     # deviation and exempts it from LatestWins/NoLateApply via `tainted`); count them as known
     kf = core.KnownFindings(prop)
-    return pipeline.finish(prop, tier, seed, t0, [pst, rst, rst2],
+    return pipeline.finish(prop, tier, seed, t0, [pst, rst, rst2, rst3],
                            rule="non-trivial: at least one task step applied, stored or dropped a result",
                            assumptions=["<=3-4 assignments (coroutine / async generator with two yields / plain value / coroutine whose result is rejected; each behaviour replayed with a fresh function object per assignment and with one shared function object), every interleaving of assignment, completion and single loop steps up to the step bound",
                                         "replay on a single-step event loop owned by the driver (harness/steploop.py; CPython 3.12 task internals, self-tested)",
